@@ -348,6 +348,9 @@ impl ReplCell {
         if self.oracles.c16 {
             crate::props::c16::check_frame(self, x, c, &view)?;
         }
+        if self.oracles.c12 && self.cfg.hist {
+            x.sim.check_history(c, &view).map_err(|v| self.own(v))?;
+        }
         if self.oracles.c12 && x.setup_done && self.cfg.tick_offset == 0 {
             x.sim.check_mutate_ticks(c, &view).map_err(|v| self.own(v))?;
         }
